@@ -448,8 +448,13 @@ def c04_corr(res, exe, driver, tier, seed, tmp):
                 o += len(chr(ch).encode("utf-8"))
             tgt = hits[min(cnt, len(hits)) - 1] if hits and cnt >= 1 else None
             if tgt is not None and k == "F":
+                # "before" the match = one whole cluster before it (crate's own segmentation of the text up to the match)
                 before = split_at(s, tgt)[0]
-                tgt -= len(chr(before[-1]).encode("utf-8"))
+                if tuple(before) not in need or need[tuple(before)] is None:
+                    o2 = run_impl(exe, "seg", [enc(before)], tmp)[0].split(" BACKWARD")[0]
+                    need[tuple(before)] = [] if o2 == "_" else [dec(t2) for t2 in o2.split(",")]
+                gb = need[tuple(before)]
+                tgt -= blen(gb[-1]) if gb else 0
         else:
             hits, o = [], 0
             for ch in pre:
